@@ -227,6 +227,9 @@ func wrap(t *rapid.T, inner MV, levels int) MV {
 // genDeepMV: one branch nested around the encoder's guard depth (64) or far
 // past it, next to shallow members that hold numbers.
 func genDeepMV(t *rapid.T) MV {
+	if rapid.IntRange(0, 15).Draw(t, "verydeep") == 7 {
+		return genVeryDeepMV(t)
+	}
 	levels := rapid.OneOf(rapid.IntRange(58, 70), rapid.IntRange(61, 66), rapid.IntRange(100, 130)).Draw(t, "levels")
 	budget := 8
 	leaf := MV{K: "vec", L: []MV{genScalar(t), {K: "int", I: genInt().Draw(t, "li")}, {K: "float", FB: math.Float64bits(genFloat().Draw(t, "lf"))}}}
@@ -620,8 +623,14 @@ func genDocBytes(t *rapid.T) []byte {
 
 func genDocCase() *rapid.Generator[DocCase] {
 	return rapid.Custom(func(t *rapid.T) DocCase {
+		var doc []byte
+		if rapid.IntRange(0, 399).Draw(t, "limitdoc") == 200 {
+			doc = genLimitDoc(t)
+		} else {
+			doc = genDocBytes(t)
+		}
 		return DocCase{
-			Doc:       genDocBytes(t),
+			Doc:       doc,
 			SN:        rapid.IntRange(0, 3).Draw(t, "sn") == 0,
 			EI:        rapid.Bool().Draw(t, "ei"),
 			Bytes:     rapid.Bool().Draw(t, "bytes"),
